@@ -39,7 +39,10 @@ def state_case(draw):
     kind = draw(st.sampled_from(['entangled', 'entangled', 'blocks', 'blocks_large']))
     c = {'kind': kind, 'cplx': draw(st.sampled_from([True, True, False])), 'seed': draw(gen.SEED), 'useed': draw(gen.SEED),
          'samples': draw(st.sampled_from([1, 2, 5, 20, 60, 200])), 'gate_in_place': draw(st.sampled_from([False, True])),
-         'signed': draw(st.sampled_from([False, False, True])), 'hadamard_gauge': draw(st.booleans())}
+         'signed': draw(st.sampled_from([False, False, True])), 'hadamard_gauge': draw(st.booleans()),
+         # a rare branch: the amplitudes with one qubit of the first block in state 1 (or 0) are scaled by 2e-3 / 3e-4, so that
+         # outcome has a conditional probability of 1e-5 ... 1e-8, and every third shot gets a variate inside that small mass
+         'rare': draw(st.sampled_from([None, None, None, 2e-3, 3e-4]))}
     if kind == 'entangled':
         n = draw(st.integers(1, 7))
         c['blocks'] = [n]
@@ -69,7 +72,7 @@ def state_case(draw):
     return c
 
 
-def block_state(rng, q, rank, cplx, signed=False):
+def block_state(rng, q, rank, cplx, signed=False, rare=None):
     """dense normalised state of q qubits with TT ranks <= rank, and its cores"""
     mr = dense.max_ranks([2] * q)
     r = [1] + [min(rank, mr[i]) for i in range(1, q)] + [1]
@@ -80,12 +83,17 @@ def block_state(rng, q, rank, cplx, signed=False):
         cores = [rng.choice([1.0, -1.0, 1.0, -1.0, 0.0], size=c.shape).astype(c.dtype) for c in cores]
         if np.linalg.norm(dense.contract(cores)) == 0:
             cores = [np.ones_like(c) for c in cores]
+    if rare:
+        i = int(rng.integers(0, q))
+        b = int(rng.integers(0, 2))
+        cores[i] = np.array(cores[i], dtype=np.result_type(cores[i], float))
+        cores[i][:, b, :, :] *= rare
     v = dense.contract(cores).reshape(-1)
     cores[0] = cores[0] / np.linalg.norm(v)
     return v / np.linalg.norm(v), cores
 
 
-def predict_bits(psi, q, measured, U):
+def predict_bits(psi, q, measured, U, rare=False):
     """inverse-CDF sampling for one block: psi dense (2^q), measured = local site indices (sorted), U (N x len(measured))
     -> bit matrix (N x len(measured)), minimal distance of a variate to a decision boundary"""
     P = (np.abs(psi) ** 2).reshape([2] * q)
@@ -102,6 +110,12 @@ def predict_bits(psi, q, measured, U):
             p1 = cur[1].sum()
             tot = p0 + p1
             c0 = p0 / tot if tot > 0 else 0.5
+            if rare and s % 3 == 0:
+                # put this shot's variate into the middle of a rare outcome's mass (U is the caller's matrix: changed in place)
+                if 0 < 1 - c0 < 1e-4:
+                    U[s, j] = c0 + (1 - c0) / 2
+                elif 0 < c0 < 1e-4:
+                    U[s, j] = c0 / 2
             mind = min(mind, abs(U[s, j] - c0))
             b = 1 if U[s, j] > c0 else 0
             bits[s, j] = b
@@ -115,7 +129,8 @@ def body(c):
     n = sum(blocks)
     cores, dense_blocks = [], []
     for q in blocks:
-        v, cr = block_state(rng, q, c['rank'], c['cplx'], signed=bool(c.get('signed')))
+        v, cr = block_state(rng, q, c['rank'], c['cplx'], signed=bool(c.get('signed')),
+                            rare=c.get('rare') if (not cores and not c.get('signed')) else None)
         dense_blocks.append(v)
         cores += cr
     if c.get('signed') and c.get('hadamard_gauge'):
@@ -143,7 +158,7 @@ def body(c):
         for q, v in zip(blocks, dblocks):
             loc = [s - off for s in measure if off <= s < off + q]
             if loc:
-                bits, md = predict_bits(v, q, loc, U[:, col:col + len(loc)])
+                bits, md = predict_bits(v, q, loc, U[:, col:col + len(loc)], rare=bool(c.get('rare')) and off == 0 and not c.get('signed'))
                 pred_[:, col:col + len(loc)] = bits
                 col += len(loc)
                 mind_ = min(mind_, md)
@@ -174,6 +189,8 @@ def body(c):
     require(len({tuple(r) for r in samples.astype(int).tolist()}) == samples.shape[0], 'distinct', 'returned bit strings are not distinct')
     require(abs(freqs.sum() - 1) <= 1e-12 and np.all(freqs > 0), 'frequencies', 'frequencies sum to %.15f' % freqs.sum())
     lab = {c['kind']}
+    if c.get('rare') and not c.get('signed'):
+        lab.add('rare_branch')
     if c['cplx']:
         lab.add('complex')
     if c['rank'] >= 2 and max(blocks) >= 2:
